@@ -10,6 +10,7 @@ T = TRUE
 def register(E):
     model = model_decorator(E.models)
     register_maps(E)
+    register_indexset(E)
 
     def d(st, v):
         return E.deref(st, v)
@@ -491,5 +492,188 @@ def register_maps(E):
             i = proj[0][1]
             nv = old_upd(st, fid, ents[i][1], proj[1:], val) if len(proj) > 1 else val
             return mk(kind, ents[:i] + ((ents[i][0], nv),) + ents[i + 1:])
+        return old_upd(st, fid, v, proj, val)
+    E._upd = _upd
+
+
+def register_indexset(E):
+    """indexmap::IndexSet<T> as an ordered tuple of elements with pairwise non-equivalent keys.  Lookups fork per
+    element on the element type's *real* equivalence code (`<Q as Equivalent<T>>::equivalent` / `<T as PartialEq>::eq`
+    executed from the crate's MIR).  `move_index` panics out of bounds as documented."""
+    model = model_decorator(E.models)
+
+    def d(st, v):
+        return E.deref(st, v)
+
+    def mk(items):
+        return Obj('IndexSet', tuple(items))
+    E.mk_indexset = mk
+
+    def base_ref(st, r):
+        while isinstance(r, Ref):
+            nxt = E.read_ref(st, r)
+            if isinstance(nxt, Ref): r = nxt
+            else: break
+        return r
+
+    def equiv(st, key, item, callee):
+        """[(cond, bool z3, state)] : key equivalent to item, through the crate's own impls"""
+        k = d(st, key)
+        it = d(st, item)
+        tn = E.type_name_of(st, it)
+        if isinstance(k, Str):
+            path = f'<str as indexmap::Equivalent<{tn}>>::equivalent'
+            kk = k
+        else:
+            path = f'<{tn} as std::cmp::PartialEq>::eq'
+            kk = key if isinstance(key, Ref) else E.root_ref(st, k)
+        ir = item if isinstance(item, Ref) else E.root_ref(st, it)
+        outs = E.call_value(st, FnItem(path), [kk, ir])
+        res = []
+        for cond, o in outs:
+            if o.kind != 'ret':
+                raise Inconclusive('element equivalence panics: ' + str(o.value))
+            res.append((cond, o.value, o.st))
+        return res
+
+    def find(st, set_ref, key, callee):
+        """[(cond, index | None, state)]: first element equivalent to key"""
+        s0 = d(st, set_ref)
+        items = s0.data
+        res = []
+        def rec(i, pre, st_cur):
+            if i == len(items):
+                res.append((pre, None, st_cur)); return
+            for cond, b, s2 in equiv(st_cur, key, items[i], callee):
+                ct = z3.simplify(z3.And(pre, cond, b)); cf = z3.simplify(z3.And(pre, cond, z3.Not(b)))
+                if not z3.is_false(ct): res.append((ct, i, s2))
+                if not z3.is_false(cf): rec(i + 1, cf, s2)
+        rec(0, TRUE, st)
+        return res
+
+    def adopt(st2, s_after):
+        st2.heap = dict(s_after.heap)
+        for fid, fr in s_after.fmap.items():
+            if fid in st2.fmap: st2.fmap[fid].locs = dict(fr.locs)
+
+    @model(r'^indexmap::IndexSet::(new|default|with_capacity)$|^<indexmap::IndexSet as std::default::Default>::default$')
+    def _(E, st, callee, a, m): return [(TRUE, mk(()))]
+
+    @model(r'^indexmap::IndexSet::(len|is_empty|clear)$')
+    def _(E, st, callee, a, m):
+        s0 = d(st, a[0]); op = m.group(1)
+        if op == 'len': return [(TRUE, I(len(s0.data), 64))]
+        if op == 'is_empty': return [(TRUE, z3.BoolVal(len(s0.data) == 0))]
+        def eff(st2): E.store(st2, a[0], mk(()))
+        return [(TRUE, UNIT, eff)]
+
+    @model(r'^indexmap::IndexSet::(get|get_index_of|contains|get_full|shift_remove|swap_remove|shift_remove_full)$')
+    def _(E, st, callee, a, m):
+        op = m.group(1)
+        s0 = d(st, a[0])
+        br = base_ref(st, a[0])
+        outs = []
+        for cond, idx, s_after in find(st, a[0], a[1], callee):
+            if op == 'get':
+                val = NONE if idx is None else some(Ref(br.frame, br.local, br.proj + (('setidx', idx),)))
+                outs.append((cond, val, (lambda st2, s_after=s_after: adopt(st2, s_after))))
+            elif op == 'get_index_of':
+                outs.append((cond, NONE if idx is None else some(I(idx, 64)), (lambda st2, s_after=s_after: adopt(st2, s_after))))
+            elif op == 'contains':
+                outs.append((cond, z3.BoolVal(idx is not None), (lambda st2, s_after=s_after: adopt(st2, s_after))))
+            elif op == 'get_full':
+                val = NONE if idx is None else some(Tup([I(idx, 64), Ref(br.frame, br.local, br.proj + (('setidx', idx),))]))
+                outs.append((cond, val, (lambda st2, s_after=s_after: adopt(st2, s_after))))
+            elif op in ('shift_remove', 'swap_remove'):
+                def eff(st2, idx=idx, s_after=s_after):
+                    adopt(st2, s_after)
+                    if idx is not None:
+                        items = s0.data
+                        if op == 'shift_remove':
+                            E.store(st2, a[0], mk(items[:idx] + items[idx + 1:]))
+                        else:
+                            new = list(items); new[idx] = new[-1]; new.pop()
+                            E.store(st2, a[0], mk(new))
+                outs.append((cond, z3.BoolVal(idx is not None), eff))
+            else:
+                raise Inconclusive('IndexSet::' + op)
+        return outs
+
+    @model(r'^indexmap::IndexSet::(replace_full|replace|insert|insert_full)$')
+    def _(E, st, callee, a, m):
+        op = m.group(1)
+        s0 = d(st, a[0])
+        items = s0.data
+        outs = []
+        for cond, idx, s_after in find(st, a[0], a[1], callee):
+            new_item = d(s_after, a[1]) if isinstance(a[1], Ref) else a[1]
+            if idx is None:
+                def eff(st2, s_after=s_after, new_item=new_item):
+                    adopt(st2, s_after); E.store(st2, a[0], mk(items + (new_item,)))
+                val = {'replace_full': Tup([I(len(items), 64), NONE]), 'replace': NONE, 'insert': TRUE,
+                       'insert_full': Tup([I(len(items), 64), TRUE])}[op]
+                outs.append((cond, val, eff))
+            else:
+                old = items[idx]
+                if op in ('replace_full', 'replace'):
+                    def eff(st2, s_after=s_after, idx=idx, new_item=new_item):
+                        adopt(st2, s_after); E.store(st2, a[0], mk(items[:idx] + (new_item,) + items[idx + 1:]))
+                    val = Tup([I(idx, 64), some(old)]) if op == 'replace_full' else some(old)
+                    outs.append((cond, val, eff))
+                else:
+                    val = FALSE if op == 'insert' else Tup([I(idx, 64), FALSE])
+                    outs.append((cond, val, (lambda st2, s_after=s_after: adopt(st2, s_after))))
+        return outs
+
+    @model(r'^indexmap::IndexSet::(move_index|swap_indices)$')
+    def _(E, st, callee, a, m):
+        s0 = d(st, a[0]); items = s0.data
+        n = len(items)
+        fr, to = d(st, a[1]), d(st, a[2])
+        outs = []
+        oob = z3.Or(z3.UGE(fr.v, n), z3.UGE(to.v, n))
+        outs.append((oob, Panic(f'IndexSet::move_index: index out of bounds (len {n})')))
+        for i in range(n):
+            for j in range(n):
+                cond = z3.And(fr.v == i, to.v == j)
+                lst = list(items)
+                if m.group(1) == 'move_index':
+                    x = lst.pop(i); lst.insert(j, x)
+                else:
+                    lst[i], lst[j] = lst[j], lst[i]
+                def eff(st2, lst=tuple(lst)): E.store(st2, a[0], mk(lst))
+                outs.append((cond, UNIT, eff))
+        return outs
+
+    @model(r'^indexmap::IndexSet::(iter|first|last|get_index)$|^<&indexmap::IndexSet as std::iter::IntoIterator>::into_iter$')
+    def _(E, st, callee, a, m):
+        s0 = d(st, a[0]); items = s0.data
+        br = base_ref(st, a[0])
+        refs = [Ref(br.frame, br.local, br.proj + (('setidx', i),)) for i in range(len(items))]
+        op = m.group(1) or 'iter'
+        if op == 'iter': return [(TRUE, Obj('SeqIter', (tuple(refs), 0)))]
+        if op == 'first': return [(TRUE, some(refs[0]) if refs else NONE)]
+        if op == 'last': return [(TRUE, some(refs[-1]) if refs else NONE)]
+        i = d(st, a[1]).conc()
+        if i is None: raise Inconclusive('get_index symbolic')
+        return [(TRUE, some(refs[i]) if i < len(refs) else NONE)]
+
+    @model(r'^<indexmap::IndexSet as std::iter::IntoIterator>::into_iter$')
+    def _(E, st, callee, a, m):
+        s0 = d(st, a[0])
+        return [(TRUE, Obj('SeqIter', (tuple(s0.data), 0)))]
+
+    old_project = E.project
+    def project(st, fid, v, p):
+        if p[0] == 'setidx':
+            return v.data[p[1]]
+        return old_project(st, fid, v, p)
+    E.project = project
+    old_upd = E._upd
+    def _upd(st, fid, v, proj, val):
+        if proj and proj[0][0] == 'setidx':
+            i = proj[0][1]
+            nv = old_upd(st, fid, v.data[i], proj[1:], val) if len(proj) > 1 else val
+            return mk(v.data[:i] + (nv,) + v.data[i + 1:])
         return old_upd(st, fid, v, proj, val)
     E._upd = _upd
